@@ -315,7 +315,7 @@ INTER_FRAMES = ["8D406B902015A678D4D220AA4BDA", "8D4840D6202CC371C32CE0576098", 
                 "5D484FDEA248F5", "02E197B00179C3", "8d406b902015a678d4d220000000", "FFFFFFFFFFFFFFFFFFFFFFFFFFFF"]
 
 
-def w_inter(_):
+def w_inter(bound):
     """re-entrancy (preemption bound 1, engine.interleave): a checksum computation suspended before each of its source
     lines while another one - other frame, other length, encode mode, the legacy routine - runs to completion."""
     from engine.util import interleaved_ok
@@ -324,11 +324,11 @@ def w_inter(_):
     for fn, tuples, others in (
             ("crc", [(fr[0],), (fr[3],), (fr[5],), (fr[1], True)], [(pms.common.crc_legacy, (fr[2],))]),
             ("crc_legacy", [(fr[0],), (fr[4],)], [(pms.common.crc, (fr[1],)), (pms.common.crc, (fr[3], True))])):
-        bad_, n = interleaved_ok(getattr(pms.common, fn), tuples, others)
+        bad_, n = interleaved_ok(getattr(pms.common, fn), tuples, others, bound=bound or 1)
         acc.n += n
         acc.c["interleaved_schedules"] += n
         for a_, nm, k_ in bad_:
-            acc.bad("%s:answer_changes_when_another_call_runs_in_between" % fn, {"kind": "inter", "fn": fn, "a": list(a_), "with": nm, "preempt_before_line_event": k_})
+            acc.bad("%s:answer_changes_when_another_call_runs_in_between" % fn, {"kind": "inter", "fn": fn, "a": list(a_), "with": nm, "preempt_before_line_event": k_, "bound": bound or 1})
         acc.out.add(("inter", fn))
     return acc.res()
 
@@ -391,6 +391,8 @@ def run(ctx):
     tasks += [("seq", (sq[i:i + 4], 4 if ctx.thorough else 3)) for i in range(0, len(sq), 4)]
     ctx.cov["transitions"] = 0
     tasks.append(("inter", None))
+    if ctx.thorough:
+        tasks.append(("inter", 2))
     ctx.pmap(w_any, tasks)
     ctx.cov.update({
         "traces_validated_against_impl": int(ctx.n),
@@ -408,7 +410,7 @@ def replay(case):
     acc = Acc()
     k = case["kind"]
     if k == "inter":
-        return [(s_, c_) for s_, c_ in w_inter(None)["viols"] if c_["fn"] == case["fn"]][:1]
+        return [(s_, c_) for s_, c_ in w_inter(case.get("bound"))["viols"] if c_["fn"] == case["fn"]][:1]
     if k == "rem":
         n = len(case["msg"]) * 4
         _judge_frame(acc, (case["fn"],), int(case["msg"], 16), n)
